@@ -9,7 +9,8 @@ THEOREMS = ["IsobarV.C06." + t for t in (
     "stop_rule", "never_stops_when_off", "schedule_refused_unchanged", "len_le_max_op", "named_replace_no_growth",
     "removed_emits_nothing", "unscheduled_is_gone", "clear_removes_all", "muted_emits_nothing", "len_le_max",
     # the whole life of a track inside a timeline (lean/IsobarV/Props/C06Runs.lean)
-    "getNext_life", "pullLoop_life", "soloTick_life", "alone_life", "leaves_with_quota_performed", "events_performed_in_the_timeline")]
+    "getNext_life", "pullLoop_life", "soloTick_life", "alone_life", "leaves_with_quota_performed", "events_performed_in_the_timeline",
+    "run_keyword_off_never_stops", "run_keyword_on")]
 RULE = ("random histories over finite and infinite streams with event counts, gates > 1 (notes outlive the stream), keep-when-done "
         "tracks, max_tracks changes, named re-schedules, unschedule/clear/mute/unmute, stop-when-done on and off; real Timeline "
         "vs Lean model on len(tracks)/track identities after every operation, the tick at which tick() raises StopIteration and all "
